@@ -204,7 +204,7 @@ fn lat1_string(rng: &mut crate::rng::Rng, n: usize) -> String {
 pub fn run(ctx: &Ctx, replay: Option<&J>) -> CheckResult {
     let rule = "every list-bearing type of the pinned layout table (legacy observables 1001-1004/1009-1012, 1013, network RTK 1015-1017/1037-1039/1030/1031/1034/1035/1303/1304, SSR \
         1057/1058/1060-1064/1066-1068) x every n=0..=capacity with elements drawn from decoded zero/ones/random vectors in varying order; descriptor strings of 1007/1008/1033/1021/1022/\
-        1300-1302 for every length 0..=31, the 1302 link list 0..=7, and the 1029 text for every byte length 0..=255 (1/2/3-byte characters, <=127 characters, special code points such as U+FEFF, U+200D, U+2028, NUL, backslash at the first / last position). oracle: build Ok, payload<=1023 bytes, count read from the wire at the pinned offset/width == n, decode == input \
+        1300-1302 for every length 0..=31, the 1302 link list 0..=7 (links of random length, all empty, all at capacity, a single character among empty links), and the 1029 text for every byte length 0..=255 (1/2/3-byte characters, <=127 characters, special code points such as U+FEFF, U+200D, U+2028, NUL, backslash at the first / last position). oracle: build Ok, payload<=1023 bytes, count read from the wire at the pinned offset/width == n, decode == input \
         (same number of elements, same order), also when the builder's first use was a refused or long message. Every count value above the capacity that the field can express (1057/1063: 61-63, 1060/1066: 40-63, 8-bit string counts 32-255) with a long \
         body => Corrupt; every byte truncation of full-length and mid-length frames (re-framed, valid CRC) => Corrupt (Empty below 2 bytes). non-trivial = all (n in {0,1,cap-1,cap} and \
         damaged frames are classed); distinct = (type, n, repetition) / hash of damaged payload"
@@ -319,7 +319,9 @@ pub fn run(ctx: &Ctx, replay: Option<&J>) -> CheckResult {
                         base.walk(&mut Vec::new(), &mut all);
                         for (p, node) in &all {
                             if matches!(node, Value::Str(_)) {
-                                let len = if Some(p) == first.as_ref() { n } else { rng.below(32) as usize };
+                                // the other strings: random lengths, all empty, all at capacity (style rotates with rep and n)
+                                let style = (rep as usize + n / 8) % 4;
+                                let len = if Some(p) == first.as_ref() { n } else if style == 1 { 0 } else if style == 2 { 31 } else { rng.below(32) as usize };
                                 *tree.get_mut(p).unwrap() = Value::Str(lat1_string(&mut rng, len));
                             }
                         }
@@ -329,14 +331,22 @@ pub fn run(ctx: &Ctx, replay: Option<&J>) -> CheckResult {
                                 let tpl = tc.seq_templates.get(&schema_key(&lp)).map(|t| t.0.clone());
                                 if let (Some(tpl), Some(Value::Seq(items))) = (tpl, tree.get_mut(&lp)) {
                                     let want = (n + rep as usize) % 8;
+                                    // element extremes: every link empty (the shortest element there is), every link at
+                                    // capacity, one single character among empty links, or random lengths
+                                    let style = (rep as usize / 2 + n / 8) % 4;
                                     items.clear();
-                                    for _ in 0..want {
+                                    for li in 0..want {
                                         let mut e = tpl.clone();
                                         let mut leaves = Vec::new();
                                         tpl.walk(&mut Vec::new(), &mut leaves);
                                         for (p, node) in leaves {
                                             if matches!(node, Value::Str(_)) {
-                                                let len = rng.below(32) as usize;
+                                                let len = match style {
+                                                    1 => 0,
+                                                    2 => 31,
+                                                    3 => usize::from(li == want - 1),
+                                                    _ => rng.below(32) as usize,
+                                                };
                                                 *e.get_mut(&p).unwrap() = Value::Str(lat1_string(&mut rng, len));
                                             }
                                         }
